@@ -77,9 +77,9 @@ static Setup setup_for(const Config& c) {
 }
 
 // ---------- operations ----------
-enum OpK { O_SP, O_USP, O_GSP, O_SDP, O_DP, O_REP, O_SL, O_ST };
+enum OpK { O_SP, O_USP, O_GSP, O_SDP, O_DP, O_REP, O_SL, O_ST, O_STA };
 static const char* op_name(OpK k) {
-	static const char* n[] = {"SetShapePartitions", "UpdateSkinPartitions", "GetShapePartitions", "SetDefaultPartition", "DeletePartitions", "RemoveEmptyPartitions", "Save+Load", "SetTriangles(drop last)"};
+	static const char* n[] = {"SetShapePartitions", "UpdateSkinPartitions", "GetShapePartitions", "SetDefaultPartition", "DeletePartitions", "RemoveEmptyPartitions", "Save+Load", "SetTriangles(drop last)", "SetTriangles(append one)"};
 	return n[k];
 }
 struct Op {
@@ -98,7 +98,7 @@ static J op_json(const Op& o) {
 static bool op_from_json(const J& j, Op& o) {
 	std::string n = j[0].str();
 	bool ok = false;
-	for (int k = 0; k <= O_ST; k++) if (n == op_name((OpK) k)) { o.k = (OpK) k; ok = true; }
+	for (int k = 0; k <= O_STA; k++) if (n == op_name((OpK) k)) { o.k = (OpK) k; ok = true; }
 	if (!ok) return false;
 	if (o.k == O_SP) { o.n = (int) j[1].i64(); for (auto& x : j[2].a) o.a.push_back((int) x.i64()); }
 	if (o.k == O_DP) for (auto& x : j[1].a) o.a.push_back((int) x.i64());
@@ -146,6 +146,7 @@ static std::vector<Op> small_alphabet(int T, int P) {
 	std::vector<Op> out;
 	for (OpK k : {O_USP, O_GSP, O_SDP, O_REP, O_SL}) { Op o; o.k = k; out.push_back(o); }
 	if (T >= 2) { Op o; o.k = O_ST; out.push_back(o); } // the shape loses its last triangle: cached assignments of the old size must not survive
+	if (P >= 1) { Op o; o.k = O_STA; out.push_back(o); } // the shape gains a triangle that lies in no partition yet: the next rebuild has to place it
 	auto dp = [&](uint32_t mask) {
 		Op o;
 		o.k = O_DP;
@@ -255,6 +256,20 @@ static bool apply_op(Model& m, const Op& o, Ctx& cx) {
 		case O_REP:
 			nif.RemoveEmptyPartitions(m.shape);
 			break;
+		case O_STA: {
+			std::vector<Triangle> t;
+			m.shape->GetTriangles(t);
+			for (auto& cand : tri_pool6()) {
+				bool present = false;
+				for (auto& x : t) if (tri_key(x) == tri_key(cand)) present = true;
+				if (present || cand.p1 >= m.shape->GetNumVertices() || cand.p2 >= m.shape->GetNumVertices() || cand.p3 >= m.shape->GetNumVertices()) continue;
+				t.push_back(cand);
+				m.shape->SetTriangles(t);
+				m.stale = true;
+				break;
+			}
+			break;
+		}
 		case O_ST: {
 			std::vector<Triangle> t;
 			m.shape->GetTriangles(t);
